@@ -27,7 +27,8 @@ legacy_diagnostic = DH.diagnostic
 
 # pristine module state, captured before anything in this process used the package
 _PRISTINE = copy.deepcopy({"args": DF.default_argument_values, "funcs": DF.default_diagnostic_functions})
-_LOGGER_STATE = (DH.logger.level, len(DH.logger.filters))
+_LOGGER_LEVEL0 = DH.logger.level
+_LOGGER_STATE = (DH.logger.getEffectiveLevel(), len(DH.logger.filters))
 
 KW = {"none": {}, "osf": {"overload_scaling_factor": 0.5}, "minr": {"min_r_ohm": 1.0},
       "maxx": {"max_x_ohm": 0.05}, "compact": {}}
@@ -202,14 +203,16 @@ class State:
 
 
 def logger_state():
-    return (DH.logger.level, len(DH.logger.filters))
+    # the *effective* level is what a later call (or the user's own logging) can observe; report() restores the effective level as
+    # the logger's own level (NOTSET -> WARNING under a default root logger), which no later call can tell apart
+    return (DH.logger.getEffectiveLevel(), len(DH.logger.filters))
 
 
 def install(mod):
     # the diagnostic logger is process-global as well: start every real call from its pristine configuration
     for f in list(DH.logger.filters):
         DH.logger.removeFilter(f)
-    DH.logger.setLevel(_LOGGER_STATE[0])
+    DH.logger.setLevel(_LOGGER_LEVEL0)
     DF.default_argument_values = mod["df_args"]
     DD.default_argument_values = mod["dd_args"]
     DF.default_diagnostic_functions = mod["df_funcs"]
